@@ -273,6 +273,7 @@ type GunPlan struct {
 	OnShoot     func(g *MockGun, a *MockAmmo, entry time.Time)
 	OnBind      func(g *MockGun)
 	OnClose     func(g *MockGun)
+	CloseTakes  time.Duration // a closable gun's Close lasts this long before it counts as closed
 
 	newGunCalls atomic.Int64
 	bindCalls   atomic.Int64
@@ -354,6 +355,11 @@ type MockGun struct {
 type closerGun struct{ *MockGun }
 
 func (g *closerGun) Close() error {
+	// closing a real gun takes time (connections are shut down): a Close that nobody waits for
+	// is still under way when the run is reported as over
+	if d := g.plan.CloseTakes; d > 0 {
+		time.Sleep(d)
+	}
 	g.Closed.Add(1)
 	g.ClosedAt.Store(time.Now().UnixNano())
 	if g.inflight.Load() != 0 {
